@@ -372,13 +372,16 @@ def oracle_stacking(case, ctx):
         cols = []
         for i in range(k):
             m = RF(tag=300 + i, bias=0.1 * (i + 1))
-            m.fit(y0.copy(), None, gen.build_fh(steps, "list"))
+            # with an absolute horizon the members keep forecasting the SAME time points after
+            # updates; with a relative one the same steps from the new cutoff
+            m.fit(y0.copy(), None, fh_obj(case, cutoff) if case["fh_mode"] == "abs" else gen.build_fh(steps, "list"))
             for b in members_state_y:
                 m.update(b.copy(), update_params=case["update_params"])
             cols.append(m.predict().to_numpy(dtype=float))
         Xp = np.column_stack(cols)
         v = doubles._lin(Xp, 99)
-        return pd.Series(v, index=[cutoff_now + h for h in steps])
+        base = cutoff if case["fh_mode"] == "abs" else cutoff_now
+        return pd.Series(v, index=[base + h for h in steps])
 
     p = sut(f.predict)
     discs += same(p, expect([], cutoff), "stacking_predict", "stacking")
@@ -470,7 +473,13 @@ def stacking_cases(draw):
         c["values"] = c["values"] + [17.0 + i for i in range(total - len(c["values"]))]
     c["n_members"] = draw(st.integers(1, 3))
     if c["fh_mode"] == "abs":
-        c["updates"] = []
+        # the absolute time points must stay out-of-sample while the cutoff moves on
+        keep, room = [], c["fh"][0] - 1
+        for u in c["updates"]:
+            if u <= room:
+                keep.append(u)
+                room -= u
+        c["updates"] = keep
     return c
 
 
